@@ -32,7 +32,9 @@ prop(
     title="Modified or foreign secured chunks are never accepted",
     technique="runtime monitor: valid secured chunks (MSG single / intermediate / final, CLO, OPN request, OPN response) from "
               "real channel pairs are modified or re-secured under other keys / identities and fed to the real receive path "
-              "(verify_and_remove_security, validate_chunks, Chunker::decode); oracle: no message may come out",
+              "(verify_and_remove_security, validate_chunks, Chunker::decode); oracle: no message may come out. The same on "
+              "channel pairs taken through one and two real OPN Renew exchanges, where the receiver holds the keys of two "
+              "tokens and picks them by the token id the chunk names",
     rule="per (policy of 5, mode Sign/SignAndEncrypt, direction): chunks of 3 sizes; modifications: every byte position "
          "XORed with a seeded non-zero value (exhaustive for chunks up to 1200 bytes, thorough 9001; larger: all header, "
          "signature, padding and block-edge positions plus a seeded sample), every single bit of the headers, truncation by "
@@ -41,10 +43,29 @@ prop(
          "server nonce changed, one bit), reflected to its sender, secured under another policy; OPN additionally: signed by "
          "another key than the header certificate, header certificate replaced, encrypted to another receiver, thumbprint "
          "of another certificate, a self-consistent OPN of a third identity on a channel with an established peer, an "
-         "unsecured (policy None) OPN on a secured channel. distinct = (chunk kind, policy, mode, modification, region hit)",
+         "unsecured (policy None) OPN on a secured channel. Renewed channels, per (policy, mode): two histories on a fresh "
+         "pair, open-renew-use-renew-use and open-renew-renew-use (Renew = real OPN Renew request / response with fresh "
+         "seeded nonces, token id + 1; use = the client sends under the new token and the server takes it, then the server "
+         "does the same towards the client; each use is the positive control); at every state in between (opened, renewed "
+         "and new token unused, used by the client only, used by both, the same after the second renewal) both ends "
+         "receive: every message recorded on the wire so far from either direction under every token (single chunk, two "
+         "chunks, CLO) - reflected to its sender it must never come out, replayed to the other end it must not come out once "
+         "that end has seen a newer token used (before that taking it is permitted and only counted); chunks of foreign "
+         "senders (real SecureChannels keyed by setters + derive_keys) for every pair of (token id named: each issued one, 0, "
+         "first - 1, last + 1, last + 1000, 0xFFFFFFFF) x (keys: unrelated nonces, the peer's keys of each issued token, the "
+         "receiver's own keys of each issued token), except the peer's keys under their own token id; and the byte-level "
+         "modifications above on the peer's single-chunk message under the previous token while that token is still "
+         "admissible (quick: after the first renewal, thorough: every such state). distinct = (chunk kind, policy, mode, "
+         "modification, region hit) resp. (history, state, receiver, relation of the named token to the receiver's tokens, "
+         "key set, message)",
     design_ref="4 C08",
-    level_text="Held means: none of the modified or foreign chunks explored led to a decoded message.",
+    level_text="Held means: none of the modified, foreign, reflected or superseded-token chunks explored led to a decoded "
+               "message, on freshly opened channels and on channels renewed once and twice.",
     level_note="A panic of the receive path counts as 'not delivered' here (counter rejected_by_panic) and is reported by C09. "
+               "An unmodified chunk of the peer under an older token that the receiver has not yet seen superseded by use of "
+               "a newer one (Part 6 6.7.3) is not judged either way (counters older_token_chunk_of_the_peer_*). Token "
+               "lifetimes do not expire during a run; expiry by time is not explored. Renewals change nonces and token id "
+               "only, not policy or mode. "
                "For large OPN chunks under 4096-bit keys byte positions inside the certificate and the cipher text are "
                "sampled, not enumerated. Trusted: OpenSSL.",
     shards={"quick": 8, "thorough": 16},
